@@ -16,6 +16,7 @@ import (
 	"encoding/json"
 	"fmt"
 	"os"
+	"runtime"
 	"strings"
 	"sync"
 	"sync/atomic"
@@ -335,6 +336,29 @@ func runCase(c Case) (f *fail) {
 		return &fail{"harness/server-start", err.Error()}
 	}
 	w.srv, w.app = srv, app
+	// whatever path this execution takes out of the function: nothing of this world may stay behind and be
+	// mistaken for a leak of the next one (a second Close of anything is harmless)
+	defer func() {
+		if f == nil {
+			return
+		}
+		done := make(chan struct{})
+		go func() {
+			defer close(done)
+			if w.cli != nil {
+				w.cli.Close()
+			}
+			if w.cli2 != nil {
+				w.cli2.Close()
+			}
+			if w.peer != nil {
+				w.peer.Close()
+			}
+			app.Stream.Close()
+			srv.Close()
+		}()
+		pump(env, done)
+	}()
 	app.OnRTP = func(ss *gortsplib.ServerSession, _ *description.Media, _ format.Format, _ *rtp.Packet) {
 		env.Log.Add(sysx.Event{Kind: "rtp", Session: ss})
 	}
@@ -368,7 +392,13 @@ func runCase(c Case) (f *fail) {
 			return ff
 		}
 		if serr != nil {
-			return &fail{"harness/" + c.Scenario + "/prefix-step-failed", fmt.Sprintf("step %s failed without any Close: %v (%+v)", st.name, serr, c)}
+			var evs []string
+			for _, e := range env.Log.Snapshot() {
+				if e.Kind != "request" && e.Kind != "response" && e.Kind != "rtp" {
+					evs = append(evs, fmt.Sprint(e.Kind, ":", e.Info, ":", e.Err))
+				}
+			}
+			return &fail{"harness/" + c.Scenario + "/prefix-step-failed", fmt.Sprintf("step %s failed without any Close: %v (%+v); server callbacks: %v", st.name, serr, c, evs)}
 		}
 	}
 	switch c.Mode {
@@ -418,6 +448,10 @@ func runCase(c Case) (f *fail) {
 	}
 	// ---- oracle
 	if left := sysx.WaitNoLibGoroutines(); len(left) > 0 {
+		if f := os.Getenv("C13_STACKS"); f != "" {
+			buf := make([]byte, 1<<20)
+			os.WriteFile(f, buf[:runtime.Stack(buf, true)], 0o644) //nolint:errcheck
+		}
 		return &fail{tag + "/goroutine-left", fmt.Sprintf("after every Close returned these goroutines still execute library code: %v (%+v)", left, c)}
 	}
 	if left := env.Net.Open(); len(left) > 0 {
@@ -543,6 +577,7 @@ func main() {
 		}
 	}
 	results := evid.RunJobs(jobs, 16, 5*time.Minute)
+	confirmed := map[string]bool{}
 	for ji, r := range results {
 		if r.Crashed || r.Stalled {
 			sig := "crash"
@@ -570,6 +605,12 @@ func main() {
 				// the racing order of these executions is the Go scheduler's: a failure counts when the same
 				// case fails the same way again within 40 more runs (or 90 s); the rate is part of the report
 				again, runs := 0, 0
+				if confirmed[f.Sig] {
+					// this signature has already been reproduced with another case: no need to spend the hang
+					// detector's seconds on every further case of a tree that is broken this way
+					run.Violation(f.Sig, map[string]any{"case": c, "msg": f.Msg, "reproduced": "signature already confirmed by another case"})
+					continue
+				}
 				if run.Replay == "" {
 					t0 := time.Now()
 					for runs < 40 && again < 2 && time.Since(t0) < 90*time.Second {
@@ -596,6 +637,7 @@ func main() {
 						continue
 					}
 				}
+				confirmed[f.Sig] = true
 				run.Violation(f.Sig, map[string]any{"case": c, "msg": f.Msg, "reproduced": fmt.Sprintf("%d times in %d more runs", again, runs)})
 			} else if run.NeedSample() && k == 3 {
 				run.Sample(c)
